@@ -9,6 +9,7 @@ mod report;
 mod cal;
 mod dev;
 mod fatref;
+mod fsmon;
 mod fsx;
 mod mkfs;
 mod selftest;
@@ -87,6 +88,14 @@ fn main() {
     report::quiet_panics();
     let code = match which.to_uppercase().as_str() {
         "SELFTEST" => selftest::run(&ctx),
+        "C01" => fsmon::run::run_model_check(&ctx, "C01", 1500, 60_000),
+        "C02" => fsmon::run::run_model_check(&ctx, "C02", 1200, 40_000),
+        "C03" => fsmon::run::run_model_check(&ctx, "C03", 1500, 50_000),
+        "C04" => fsmon::run::run_model_check(&ctx, "C04", 1500, 50_000),
+        "C05" => fsmon::run::run_model_check(&ctx, "C05", 1500, 50_000),
+        "C07" => fsmon::run::run_model_check(&ctx, "C07", 1500, 50_000),
+        "C08" => fsmon::run::run_model_check(&ctx, "C08", 1500, 50_000),
+        "C16" => fsmon::run::run_model_check(&ctx, "C16", 1500, 50_000),
         "C06" => checks::c06::run(&ctx),
         "C15" => checks::c15::run(&ctx),
         "C17" => codec::lfn::run(&ctx),
